@@ -285,8 +285,20 @@ class StatementLineageHolder(SubQueryLineageHolder, ColumnLineageMixin):
             if attr.get("type") == EdgeType.RENAME
         }
 
+    @property
+    def rename_in_order(self) -> list[tuple[Table, Table]]:
+        """rename pairs in the order the statement lists them, e.g. RENAME TABLE a TO b, b TO c"""
+        renames = [
+            (src, tgt, attr.get(EdgeTag.INDEX, 0))
+            for src, tgt, attr in self.graph.edges(data=True)
+            if attr.get("type") == EdgeType.RENAME
+        ]
+        return [(src, tgt) for src, tgt, _ in sorted(renames, key=lambda x: x[2])]
+
     def add_rename(self, src: Table, tgt: Table) -> None:
-        self.graph.add_edge(src, tgt, type=EdgeType.RENAME)
+        self.graph.add_edge(
+            src, tgt, type=EdgeType.RENAME, **{EdgeTag.INDEX: len(self.rename)}
+        )
 
     @staticmethod
     def of(holder: SubQueryLineageHolder) -> "StatementLineageHolder":
@@ -383,9 +395,10 @@ class SQLLineageHolder(ColumnLineageMixin):
                     if g.has_node(table) and g.degree[table] == 0:
                         g.remove_node(table)
             elif holder.rename:
-                for table_old, table_new in holder.rename:
+                for table_old, table_new in holder.rename_in_order:
                     g = nx.relabel_nodes(g, {table_old: table_new})
-                    g.remove_edge(table_new, table_new)
+                    if g.has_edge(table_new, table_new):
+                        g.remove_edge(table_new, table_new)
                     if g.degree[table_new] == 0:
                         g.remove_node(table_new)
             else:
